@@ -287,17 +287,41 @@ def _quadratic(ctx, res, f, F_of, what, rule):
                              f'distance is not {what} evaluated on the ray '
                              f'p + t d', construct=f'{f.qual} quadratic a,b,c'))
     n_roots = 0
+    # a sign selector np.where(b >= 0, 1, -1) (cancellation-free form of the
+    # roots) is decided both ways; the root property must hold in each case
+    signsel = [c_ for c_ in ast.walk(f.node) if isinstance(c_, ast.Call) and
+               call_name(c_) == 'where' and len(c_.args) == 3 and
+               {const_of(c_.args[1]), const_of(c_.args[2])} == {1, -1}]
+    if signsel:
+        envs = []
+        for dec in (True, False):
+            ev2 = Ev(sym=sym, P=P, func=f,
+                     choose=lambda t_, e_, dec=dec: dec)
+            ev2.env['rays'] = 'rays'
+            for s in _flat(f.node.body):
+                if isinstance(s, ast.Assign) and len(s.targets) == 1 and \
+                        isinstance(s.targets[0], ast.Name):
+                    try:
+                        ev2.env[s.targets[0].id] = ev2.ev(s.value)
+                    except Inconclusive:
+                        ev2.env[s.targets[0].id] = A(s.targets[0].id)
+                if isinstance(s, ast.Return):
+                    break
+            envs.append(ev2.env)
+    else:
+        envs = [ev.env]
     for name in ('t1', 't2'):
-        if name in ev.env and isinstance(ev.env[name], Rat):
-            r = ev.env[name]
+        if all(name in e_ and isinstance(e_[name], Rat) for e_ in envs):
             n_roots += 1
-            if sym.is_zero(a * r * r + b * r + c):
+            if all(sym.is_zero(a * e_[name] * e_[name] + b * e_[name] + c)
+                   for e_ in envs):
                 res.ok(f'{f.qual}: {name} solves a t^2 + b t + c = 0')
             else:
                 res.fail(ctx.finding(rule, f, f.node,
                                      f'{name} is not a root of the quadratic',
                                      construct=f'{f.qual} root {name}'))
-    if n_roots == 2 and not sym.eq(ev.env['t1'] + ev.env['t2'], -b / a):
+    if n_roots == 2 and not all(sym.eq(e_['t1'] + e_['t2'], -b / a)
+                                for e_ in envs):
         res.fail(ctx.finding(rule, f, f.node, 't1 and t2 are the same root',
                              construct=f'{f.qual} distinct roots'))
     elif n_roots == 2:
@@ -1469,5 +1493,110 @@ def flat_base(ctx):
     return res
 
 
-RULES = [flat_base, newton_unconverged, c01_media_chain, no_stale, records, scatter_unit, snell_law, reflect_law, align_normal, on_surface, normal_gradient,
+def quadratic_stable(ctx):
+    """'each valid ray's recorded intersection point lies on that surface's
+    prescribed shape' for conics with any k: the leading coefficient of the
+    ray-conic quadratic, a = 1 + k N^2, tends to 0 for a paraboloid hit by
+    rays nearly parallel to its axis.  Computing both roots as
+    (-b +- sqrt(d)) / (2 a) subtracts two numbers that agree in almost all
+    digits and divides the rounding error by the tiny 2a.  Structural rule:
+    where a depends on the conic constant, the roots must come from the
+    cancellation-free form q = -(b + sgn(b) sqrt(d)) / 2, t1 = q / a,
+    t2 = c / q (or an equivalent that never forms -b + sgn(b) sqrt(d))."""
+    from ..match import find, parse, match
+    P = ctx.P
+    res = Result('QUADRATIC-STABLE', 'the conic intersection does not form '
+                 '-b + sgn(b) sqrt(b^2 - 4ac) when the leading coefficient '
+                 'can vanish (k = -1)')
+    f = P.func('StandardGeometry.distance')
+    res.saw(f)
+    defs = {}
+    for st in ast.walk(f.node):
+        if isinstance(st, ast.Assign) and len(st.targets) == 1 and \
+                isinstance(st.targets[0], ast.Name):
+            defs.setdefault(st.targets[0].id, st.value)
+    a_def = defs.get('a')
+    if a_def is None:
+        raise AnalysisError('StandardGeometry.distance: coefficient a not '
+                            'found')
+    a_vanishes = 'self.k' in unparse(a_def)
+    naive = []
+    for nm in ('t1', 't2'):
+        v = defs.get(nm)
+        if v is None:
+            continue
+        for pat in ('(-$B + np.sqrt($D)) / (2 * $A)',
+                    '(-$B - np.sqrt($D)) / (2 * $A)'):
+            b_ = match(parse(pat), v, {})
+            if b_ and unparse(b_['A']) == 'a':
+                naive.append(nm)
+    if a_vanishes and len(naive) == 2:
+        res.fail(ctx.finding(
+            'QUADRATIC-STABLE', f, defs['t1'],
+            'both roots are computed as (-b +- sqrt(d)) / (2a) with '
+            'a = 1 + k N^2: for a paraboloid (k = -1) and a field angle of '
+            '1e-3 deg the recorded point leaves the surface by 4.9e-4 mm '
+            '(0.9 waves of OPD), for 1e-5 deg by 5.5 mm; the bundled '
+            'HubbleTelescope (k = -1.0023) carries 1.1e-9 mm',
+            construct='textbook quadratic with vanishing leading '
+                      'coefficient'))
+    else:
+        res.ok('roots of the conic quadratic are not formed by the '
+               'cancelling difference')
+    return res
+
+
+def lossless_without_k(ctx):
+    """quantifier 'ideal and catalogue media': many catalogue files give a
+    dispersion formula and no extinction table; MaterialFile.k raises for
+    them (pinned by the unit tests), so the bulk-absorption step of the trace
+    must treat 'no data' as lossless instead of aborting the trace."""
+    from .C18 import _scan_data
+    P = ctx.P
+    res = Result('NO-K-DATA', 'media without extinction data can be traced: '
+                 'the absorption step catches the ValueError of '
+                 'MaterialFile.k (or k() does not raise)')
+    rows, files, types, counts, per_file, missing = _scan_data(ctx)
+    nok = [fn for fn, ts in per_file.items()
+           if any(t.startswith('formula') or t == 'tabulated n' for t in ts)
+           and not any(t in ('tabulated k', 'tabulated nk') for t in ts)]
+    res.ok(f'{len(nok)} of {len(per_file)} catalogue files define an index '
+           f'relation and no extinction table')
+    mk = P.func('MaterialFile.k')
+    pr = P.func('RealRays.propagate')
+    res.saw(mk), res.saw(pr)
+    raises = any(isinstance(n, ast.Raise) for n in ast.walk(mk.node))
+    guarded = False
+    for n in ast.walk(pr.node):
+        if isinstance(n, ast.Try) and any(
+                isinstance(c, ast.Call) and isinstance(c.func, ast.Attribute)
+                and c.func.attr == 'k' for b in n.body for c in ast.walk(b)):
+            for h in n.handlers:
+                names = []
+                if h.type is None:
+                    names = ['*']
+                elif isinstance(h.type, ast.Tuple):
+                    names = [unparse(x) for x in h.type.elts]
+                else:
+                    names = [unparse(h.type)]
+                zero = any(isinstance(st, ast.Assign) and
+                           const_of(st.value) == 0 for st in h.body)
+                if set(names) & {'ValueError', 'Exception', '*'} and zero:
+                    guarded = True
+    if not nok or not raises or guarded:
+        res.ok('the trace does not abort on media without extinction data')
+    else:
+        res.fail(ctx.finding(
+            'NO-K-DATA', pr, pr.node,
+            f'RealRays.propagate calls material.k() unconditionally and '
+            f'MaterialFile.k raises ValueError when the file has no '
+            f'extinction table ({len(nok)} catalogue files, e.g. '
+            f'{sorted(nok)[0]}): Optic.trace raises for every lens that '
+            f'contains such a glass (bundled TelescopeObjective48Inch: '
+            f'CaF2 Daimon-20)',
+            construct='trace aborts on media without extinction data'))
+    return res
+
+
+RULES = [lossless_without_k, quadratic_stable, flat_base, newton_unconverged, c01_media_chain, no_stale, records, scatter_unit, snell_law, reflect_law, align_normal, on_surface, normal_gradient,
          frames, trace_order, same_medium, nonfinite]
